@@ -539,6 +539,21 @@ def _no_run_label(ctx, chk, f, flow, mod):
         if not guarded:
             uncond.append(pnode)
     ok = by_value or (positional and not uncond)
+    if not ok and not positional:
+        # labels enumerated from 1 (range(1, n + 1)): the 'no run' label is never among them
+        itv = it
+        if isinstance(itv, ast.Name):
+            itv = Flow.of(f).def_value(itv) or itv
+        if isinstance(itv, ast.Call) and isinstance(itv.func, ast.Name) and itv.func.id == "range" and len(itv.args) >= 2 \
+                and isinstance(itv.args[0], ast.Constant) and isinstance(itv.args[0].value, int) and itv.args[0].value >= 1:
+            chk.ob("C01.O3", True, where_of(f, rets[0]), "labels enumerated by %s: 0 ('not in a run') is never one of them" % ast.unparse(itv)[:60],
+                   "removed by value (or only if it is present)", key="get_true_interval_masks|no-run-label")
+            return
+        # "not at all" is a finding only if the labels are the distinct values of the label array; anything else is not read
+        txt_ = ast.unparse(Flow.of(f).expand(it)) if not isinstance(it, ast.Name) or Flow.of(f).def_value(it) is not None else ""
+        if not any(k in txt_ for k in ("set(", "unique(")):
+            chk.indeterminate("C01.O3", where_of(f, rets[0]), "how the labels iterated by the returned generator (%s) are obtained is not read" % ast.unparse(it)[:60])
+            return
     chk.ob("C01.O3", ok, where_of(f, uncond[0] if uncond else rets[0]),
            "label 0 ('not in a run') is removed %s" % ("by value" if by_value else ("by dropping the first sorted label unconditionally: `%s`" % ast.unparse(uncond[0]) if uncond else "not at all")),
            "removed by value (or only if it is present)", key="get_true_interval_masks|no-run-label",
